@@ -1109,3 +1109,13 @@ def g_nonlin(repo):
 
 
 GROUPS += [("Nonlin", g_nonlin, ["nflows/transforms/nonlinearities.py"])]
+
+
+# ---------------------------------------------------------------- structural tables
+def g_tables(repo):
+    import tables
+    text = tables.emit(repo)
+    return [("tables", text)], ""
+
+
+GROUPS += [("Tables", g_tables, ["nflows/**/*.py"])]
